@@ -172,6 +172,8 @@ class CallMixin:
         # the caller's contract may name the variant of a callee's contract to use at its call sites
         variant = getattr(self.cur_contract, "callee_variants", {}).get(qual) if not self.spec else None
         c = self.contracts[f"{qual}@{variant}" if variant else qual]
+        if getattr(c, "stop_before", None):
+            raise Unsupported(f"contract call {qual}: a prefix contract (stop_before) says nothing about the call's result")
         if self.binders and not self.spec:
             # the result of a contract call is a fresh unknown; inside a comprehension's element expression it would have
             # to be a different unknown per element - refused rather than modelled as one shared value
@@ -622,6 +624,11 @@ class CallMixin:
         st.assume(z3.ForAll([q, w], z3.Implies(z3.And(q >= 0, q < w, w < n), z3.Or(*[a_ != b_ for a_, b_ in zip(kq, kw_)]))))
         ks = [z3.Const(uid("k"), srt) for srt in key_sorts(S.kshape)]
         st.assume(z3.ForAll(ks, z3.Implies(sel(S.mem, *ks), z3.Exists([q], z3.And(q >= 0, q < n, *[a_ == b_ for a_, b_ in zip(kq, ks)])))))
+        # a consequence of the three facts above, spelled out because it needs two instantiations of the covering clause:
+        # a set with at most one element has no two different members (both would sit at position 0)
+        ks2 = [z3.Const(uid("k"), srt) for srt in key_sorts(S.kshape)]
+        st.assume(z3.Implies(n <= 1, z3.ForAll(ks + ks2, z3.Implies(z3.And(sel(S.mem, *ks), sel(S.mem, *ks2)),
+                                                                   z3.And(*[a_ == b_ for a_, b_ in zip(ks, ks2)])))))
         return seq
 
     def bi_range(self, args, kw, node, st):
@@ -686,6 +693,14 @@ class CallMixin:
         ok = z3.InRe(z, z3.Concat(ws, z3.Option(z3.Union(z3.Re("+"), z3.Re("-"))), us, ws))
         self.may_raise(NOT(ok), "ValueError", node)
         f = self.ufun("py_int", z3.StringSort(), z3.IntSort())
+        if not self.__dict__.get("_py_int_facts"):
+            # the same two facts closed over every string (usable where z depends on a comprehension / map position):
+            # a plain digit string is accepted (inclusion of regular languages) and denotes its decimal value
+            self._py_int_facts = True
+            zz = z3.String("py_int!z")
+            okre = z3.Concat(ws, z3.Option(z3.Union(z3.Re("+"), z3.Re("-"))), us, ws)
+            self.global_facts.append(z3.ForAll([zz], z3.Implies(z3.InRe(zz, digits), z3.And(z3.InRe(zz, okre), f(zz) == z3.StrToInt(zz))),
+                                               patterns=[f(zz), z3.InRe(zz, okre)]))
         st.assume(z3.Implies(z3.InRe(z, digits), f(z) == z3.StrToInt(z)))
         # a leading minus sign negates: int("-" + d) == -int(d) for a plain digit string d
         tail = z3.SubString(z, 1, z3.Length(z) - 1)
